@@ -430,3 +430,29 @@ impl RawRx for fibre::spmc::BoundedAsyncReceiver<Tok> {
   rx_common!(); rx_async_single!(); rx_async_batch!(); rx_try_batch!(); obs_usize_cap!(); dup_clone!(); rx_stream!();
   fn conv(self) -> Option<Self::Conv> { Some(self.to_sync()) }
 }
+
+// ------------------------------------------------------- mpmc_exp (experimental Vyukov ring)
+impl RawTx for fibre::mpmc_exp::Sender<Tok> {
+  const ASYNC: bool = false;
+  type Conv = fibre::mpmc_exp::AsyncSender<Tok>;
+  tx_common!(); tx_sync_single!(); tx_sync_batch!(); tx_try_batch!(); obs_opt_cap!(); dup_clone!();
+  fn conv(self) -> Option<Self::Conv> { Some(self.to_async()) }
+}
+impl RawTx for fibre::mpmc_exp::AsyncSender<Tok> {
+  const ASYNC: bool = true;
+  type Conv = fibre::mpmc_exp::Sender<Tok>;
+  tx_common!(); tx_async_single!(); tx_async_batch!(); tx_try_batch!(); obs_opt_cap!(); dup_clone!();
+  fn conv(self) -> Option<Self::Conv> { Some(self.to_sync()) }
+}
+impl RawRx for fibre::mpmc_exp::Receiver<Tok> {
+  const ASYNC: bool = false;
+  type Conv = fibre::mpmc_exp::AsyncReceiver<Tok>;
+  rx_common!(); rx_sync_single!(); rx_sync_batch!(); rx_try_batch!(); obs_opt_cap!(); dup_clone!();
+  fn conv(self) -> Option<Self::Conv> { Some(self.to_async()) }
+}
+impl RawRx for fibre::mpmc_exp::AsyncReceiver<Tok> {
+  const ASYNC: bool = true;
+  type Conv = fibre::mpmc_exp::Receiver<Tok>;
+  rx_common!(); rx_async_single!(); rx_async_batch!(); rx_try_batch!(); obs_opt_cap!(); dup_clone!(); rx_stream!();
+  fn conv(self) -> Option<Self::Conv> { Some(self.to_sync()) }
+}
